@@ -130,6 +130,34 @@ def holdsSeq (evs : List Event) (obs : List Bool) : Bool := obs == firstOcc evs
 def holdsConc (evs : List Event) (obs : List (Nat × Nat)) : Bool :=
   obs.length == evs.length && obs.all (fun p => p.1 == 1 && p.2 == 1)
 
+/-! ## Histories with a moving clock -/
+
+/-- a delivery, or the clock advancing by some seconds -/
+inductive Item
+  | ev (e : Event) | adv (secs : Nat)
+  deriving DecidableEq
+
+/-- the booleans returned for the deliveries of a history, clock starting at `now` -/
+def runItems (span : Nat) : Nat → Dedup → List Item → List Bool
+  | _, _, [] => []
+  | now, d, .adv s :: rest => runItems span (now + s) d rest
+  | now, d, .ev e :: rest =>
+    let r := notify span now d (cacheOf e) (cacheKey e)
+    r.1 :: runItems span now r.2 rest
+
+/-- Specification with expiry: a delivery is told to proceed iff no delivery of the same *event*
+    was told to proceed within the last `span` seconds.  `acc` = (event, time it was last handled). -/
+def specItems (span : Nat) : Nat → List (Event × Nat) → List Item → List Bool
+  | _, _, [] => []
+  | now, acc, .adv s :: rest => specItems span (now + s) acc rest
+  | now, acc, .ev e :: rest =>
+    let blocked := acc.any (fun p => p.1 == e && decide (now - p.2 ≤ span))
+    (!blocked) :: specItems span now (if blocked then acc else (e, now) :: acc) rest
+
+/-- Monitor for timed histories: handled exactly once per caching period, again after it. -/
+def holdsItems (span : Nat) (items : List Item) (obs : List Bool) : Bool :=
+  obs == specItems span 0 [] items
+
 /-! ## Small-step concurrent semantics -/
 
 inductive Pc
